@@ -22,6 +22,13 @@ Tie to the code on every run:
                     after construction, and the caller's objects afterwards, are compared with the model
                     (`constructSections`, driver op `c08_construct_sections`; theorems C08_sections_shared,
                     C08_section_widths_own).
+  row-less sections documents of 2..5 sections of which some (first / middle / last / several / all) have a frame without
+                    rows: such a section renders its header rows alone, the sections after it keep their own header rows.
+                    Besides the per-section oracle, the rendered ORDER is judged (`foreign_header`): the header rows
+                    directly above the data rows of a section that is configured with header rows of its own are that
+                    section's; header rows of another section there, with inherited boundaries other than the data
+                    rows', label columns that are not theirs.  Header objects listed for several sections are
+                    attributed to row-less sections by their position in the rendering order.
   re-configuration  histories of 2..4 documents: the page / body / column-header / footnote / source objects of a
                     document are those of the document before — the very object, the object after `obj.field = v`,
                     `obj.model_copy(update=…)`, `obj.model_copy()`, `copy.deepcopy(obj)` — or new ones; or the document
@@ -51,6 +58,10 @@ RULE = ("unit: random width vectors (1..12 columns, ints / dyadic / decimal / ar
         "col_width in [2,12]); docs: tagged tables over header mode x page_by/subline_by removal x footnote/source "
         "x orientation/col_width x multi-section x reused configuration objects (by an earlier document; by several "
         "sections of one document: body objects over sections with fewer/more/equal column counts, header objects); "
+        "documents of 2-5 sections of which the first / a middle / the last / several / every second / all but one / all "
+        "have NO ROWS (per-section, flat and omitted headers; other column counts, widths and removed columns per "
+        "section; plain and shared body / header objects; short and multi-page sections; in histories too) - every "
+        "data row must stand under the header rows of its own section, not under another section's inherited ones; "
         "histories of 2-4 documents whose page / body / header / footnote / source OBJECTS are those of the document "
         "before, handed on as they are, after attribute assignment, model_copy(update=...), model_copy(), deepcopy, or "
         "re-made (RTFPage col_width / orientation / width / height / margin / nrow; col_rel_width of body, headers, "
@@ -80,7 +91,9 @@ MANIFEST = dict(
          "checkRows and compared with the model's rows, and by comparing the widths "
          "each section holds after construction with the model's, and by histories of documents built from "
          "re-used and re-configured component objects, each judged by the same oracle.",
-    note="a re-configured page object: once it exists col_width is a field of its own (assigning orientation / width "
+    note="multi-section documents may contain sections without rows (header rows alone); what such a section does to "
+         "the page borders of its neighbours is C07's subject (known finding C07-empty-edge-section), not judged here. "
+         "a re-configured page object: once it exists col_width is a field of its own (assigning orientation / width "
          "does not re-derive it); the expectation follows the field. "
          "IEEE-754 arithmetic inside _col_widths is modelled by exact rationals over the exact float inputs; "
          "boundaries within 2^-30 twip of a rounding boundary are excluded from strict comparison and counted. "
@@ -348,9 +361,14 @@ def gen_section(rng, sec, tier, allow_removal=True, long=False):
     return dict(cols=cols, rows=rows, body=body, headers=headers, keep=keep, mode=mode, wmode=wmode, hmode=hmode)
 
 
-def gen_doc(rng, tier):
+def gen_doc(rng, tier, nsec=None):
+    """`nsec` given: a multi-section document with that many sections (the draws are the same otherwise)"""
     multi = rng.random() < 0.22
-    nsec = rng.choice([2, 2, 3]) if multi else 1
+    nsec_drawn = rng.choice([2, 2, 3]) if multi else 1
+    if nsec is None:
+        nsec = nsec_drawn
+    else:
+        multi = True
     # some multi-section documents run every section over several pages (headers repeat on the continuation pages
     # of EVERY section, each with its own cell boundaries)
     long = multi and rng.random() < 0.45
@@ -508,6 +526,104 @@ def gen_shared_doc(rng, tier):
         d["history"] = dict(ncols=[rng.randint(1, 12) for _ in range(nsec)], encode_first=rng.random() < 0.7,
                             reuse=rng.choice([["body"], ["headers"], ["body", "headers"]]))
     return d
+
+
+# ------------------------------------------------------------------ observation level: sections WITHOUT ROWS
+#
+# A frame of a section list may have no rows (an analysis population without subjects, a filter that selects nothing).
+# Such a section renders its column-header rows alone; the sections around it keep their own header rows, widths and
+# column counts.  Patterns: the first / a middle / the last section, several of them, every second one, all but one,
+# all — in documents of 2..5 sections with per-section (nested), flat and omitted headers, plain and shared
+# configuration objects, short and multi-page sections.
+
+EMPTY_PATTERNS = ("first", "first", "middle", "middle", "last", "several", "several", "alternate", "all_but_one", "all",
+                  "first_and_last", "leading_run")
+
+
+def empty_positions(rng, n, pattern):
+    """indices of the sections without rows → sorted list (never empty)"""
+    if pattern == "first":
+        return [0]
+    if pattern == "last":
+        return [n - 1]
+    if pattern == "middle":
+        return [rng.randrange(1, n - 1)] if n >= 3 else [rng.randrange(n)]
+    if pattern == "several":
+        k = rng.randint(2, max(2, n - 1))
+        return sorted(rng.sample(range(n), min(k, n)))
+    if pattern == "alternate":
+        return list(range(rng.randrange(2), n, 2)) or [0]
+    if pattern == "all_but_one":
+        keep = rng.randrange(n)
+        return [i for i in range(n) if i != keep]
+    if pattern == "first_and_last":
+        return sorted({0, n - 1})
+    if pattern == "leading_run":
+        return list(range(rng.randint(1, max(1, n - 1))))
+    return list(range(n))
+
+
+def empty_sections(rng, d, pattern=None):
+    """take the rows out of some sections of the (multi-section) document `d`, in place → the pattern's name"""
+    n = len(d["sections"])
+    pattern = pattern or rng.choice(EMPTY_PATTERNS)
+    for i in empty_positions(rng, n, pattern):
+        d["sections"][i]["rows"] = []
+    return pattern
+
+
+def gen_empty_doc(rng, tier):
+    """a document of 2..5 sections of which some have no rows; sections differ in column count, widths, removed columns
+    and header rows as in `gen_doc`; per-section headers more often than not"""
+    d = gen_doc(rng, tier, nsec=rng.choice([2, 2, 3, 3, 3, 4, 4, 5]))
+    d["header_format"] = rng.choice(["nested", "nested", "nested", "nested", "flat", "omitted"])
+    if d["header_format"] == "nested" and rng.random() < 0.5:
+        # header rows that inherit their widths from their section's body, in every section
+        for si, s in enumerate(d["sections"]):
+            if rng.random() < 0.8:
+                s["hmode"] = "explicit_nowidth"
+                s["headers"] = [dict(text=[f"S{si}H0x{j}" for j in range(sum(s["keep"]))])]
+    empty_sections(rng, d)
+    return d
+
+
+def empty_labels(case):
+    """evidence labels of the sections without rows of a document"""
+    secs = case["sections"]
+    if len(secs) < 2:
+        return []
+    e = [not s["rows"] for s in secs]
+    if not any(e):
+        return []
+    out = [f"empty_sections:{sum(e)}_of_{len(secs)}", "empty_header_format:" + case["header_format"]]
+    if all(e):
+        out.append("empty_at:all")
+    else:
+        if e[0]:
+            out.append("empty_at:first")
+        if e[-1]:
+            out.append("empty_at:last")
+        if any(e[1:-1]):
+            out.append("empty_at:middle")
+        if any(a and not b for a, b in zip(e, e[1:])):
+            out.append("empty_before_populated")
+        for si, (a, b) in enumerate(zip(e, e[1:])):
+            if a and not b:
+                # the populated section that follows: does it differ from the empty one before it?
+                p, q = secs[si], secs[si + 1]
+                out.append("empty_then_populated_ncol:" + ("same" if sum(p["keep"]) == sum(q["keep"]) else "different"))
+                out.append("empty_then_populated_hmode:" + q["hmode"])
+    for s, x in zip(secs, e):
+        if x:
+            out.append("empty_sec_mode:" + s["mode"])
+            out.append("empty_sec_hmode:" + s["hmode"])
+    if any(s.get("body_of") is not None for s in secs):
+        out.append("empty_among_shared_body_objects")
+    for root, members in header_groups(case).items():
+        k = sum(1 for m in members if e[m])
+        if k:
+            out.append(f"empty_sections_listing_shared_header_objects:{k}_of_{len(members)}")
+    return out
 
 
 # ------------------------------------------------------------------ observation level: expectation
@@ -732,22 +848,58 @@ def _observe(case, doc, caller_bodies):
     except rtfread.RtfError as e:
         return dict(status="unreadable", msg=str(e))
     rows = []
-    for page in rd.pages:
+    for pno, page in enumerate(rd.pages):
         for b in page.blocks:
             if b.kind != "row":
                 continue
             texts = [rtfread.para_text(c) for c in b.cells]
             sec, kind, hidx = classify(texts)
             rows.append(dict(sec=sec, kind=kind, hidx=hidx, cellx=[d.cellx for d in b.defs], ncells=len(b.cells),
-                             text0=(texts[0] if texts else "")[:24]))
+                             text0=(texts[0] if texts else "")[:24], page=pno))
     # header OBJECTS listed for several sections carry one text: such a row stands in the section of the rows it labels
     # (the next frame-tagged row), when that section lists the objects; otherwise in the section its text names
+    # A section WITHOUT ROWS that lists the objects renders the header rows alone (no frame-tagged row follows): a run of
+    # such rows is split into renderings of the list (the row index starts again); the last rendering labels the rows
+    # that follow it directly, the ones before it stand in the row-less sections of the group that come next in order
     groups = header_groups(case)
-    for i, r in enumerate(rows):
-        if r["kind"] == "header" and r["sec"] in groups:
-            nxt = next((q["sec"] for q in rows[i + 1:] if q["kind"] in ("data", "span_or_data", "autoheader")), None)
-            if nxt in groups[r["sec"]]:
-                r["sec"] = nxt
+    tagged = ("data", "span_or_data", "autoheader")
+    rowless = [not s["rows"] for s in case["sections"]]
+    if not any(rowless):
+        for i, r in enumerate(rows):
+            if r["kind"] == "header" and r["sec"] in groups:
+                nxt = next((q["sec"] for q in rows[i + 1:] if q["kind"] in tagged), None)
+                if nxt in groups[r["sec"]]:
+                    r["sec"] = nxt
+        groups = {}
+    i, used = 0, set()
+    while groups and i < len(rows):
+        r = rows[i]
+        if not (r["kind"] == "header" and r["sec"] in groups):
+            i += 1
+            continue
+        root, j = r["sec"], i
+        while j + 1 < len(rows) and rows[j + 1]["kind"] == "header" and rows[j + 1]["sec"] == root \
+                and rows[j + 1]["page"] == r["page"]:
+            j += 1
+        inst = [[i]]
+        for k in range(i + 1, j + 1):
+            if rows[k]["hidx"] <= rows[k - 1]["hidx"]:
+                inst.append([])
+            inst[-1].append(k)
+        prev_sec = next((q["sec"] for q in reversed(rows[:i]) if q["kind"] in tagged), -1)
+        nxt = next((q["sec"] for q in rows[j + 1:] if q["kind"] in tagged), None)
+        direct = j + 1 < len(rows) and rows[j + 1]["kind"] in tagged and rows[j + 1]["page"] == r["page"]
+        if direct and nxt in groups[root]:
+            for k in inst.pop():
+                rows[k]["sec"] = nxt
+        # renderings without rows below them: the row-less sections of the group that come next, in order
+        free = [m for m in sorted(groups[root]) if rowless[m] and m not in used and m > prev_sec
+                and (nxt is None or m < nxt)]
+        for ks, m in zip(inst, free):
+            used.add(m)
+            for k in ks:
+                rows[k]["sec"] = m
+        i = j + 1
     cur = 0  # rows without a section tag (footnote/source/other) belong to the section rendered last
     for r in rows:
         if r["sec"] is None:
@@ -836,6 +988,51 @@ def judge_construct(res, case, ob, rq, d):
         res.count("caller_body_object_written")
 
 
+def foreign_header(case, ob, exps):
+    """"header rows whose widths are inherited from the body line up cell by cell with the data columns they label": the
+    header rows standing directly above the data rows of a section label those rows.  A section that is configured
+    with header rows of its own must not have its data rows under the header rows of ANOTHER section whose inherited
+    boundaries are not the data rows' (that header inherited its widths from another body).  Decided on the rendered
+    order: from each data row of section b back over the data / group rows of b on the same page; a header row tagged
+    with another section there is judged cell by cell against the data row.  Sections without header rows of their own
+    (flat / omitted format: every section after the first; `headers=[]`) are not judged: nothing labels their rows.
+    → message or None"""
+    if len(case["sections"]) < 2:
+        return None
+    rows = ob["rows"]
+    kinds = [None] * len(rows)
+    for si, exp in enumerate(exps):
+        idx = [i for i, r in enumerate(rows) if r["sec"] == si]
+        for i, k in zip(idx, resolve_kinds(case, si, exp, [rows[i] for i in idx])):
+            kinds[i] = k
+    done = set()
+    for i, r in enumerate(rows):
+        b = r["sec"]
+        if kinds[i] is None or kinds[i][0] != "data" or b >= len(exps) or not exps[b]["headers"] or (b, r["page"]) in done:
+            continue
+        done.add((b, r["page"]))          # the first data row of the section on this page stands for the others
+        j = i - 1
+        while j >= 0 and rows[j]["page"] == r["page"] and rows[j]["sec"] == b and kinds[j] and kinds[j][0] in ("data", "span"):
+            j -= 1
+        if j < 0 or rows[j]["page"] != r["page"] or not kinds[j] or kinds[j][0] != "header":
+            continue
+        a = rows[j]["sec"]
+        if a == b:
+            continue
+        while j >= 0 and rows[j]["page"] == r["page"] and rows[j]["sec"] == a and kinds[j] and kinds[j][0] == "header":
+            h = rows[j]
+            inherited = len(kinds[j]) > 2 and kinds[j][2]
+            if inherited and (len(h["cellx"]) != len(r["cellx"])
+                              or any(abs(x - y) > 1 for x, y in zip(h["cellx"], r["cellx"]))):
+                return (f"the data rows of section {b} ({r['text0']!r}, boundaries {r['cellx']}) stand directly under a "
+                        f"header row of section {a} ({h['text0']!r}, boundaries {h['cellx']}, widths inherited from the "
+                        f"body of section {a}): the header row does not line up cell by cell with the data columns it "
+                        f"labels; section {b} is configured with {len(exps[b]['headers'])} header row(s) of its own "
+                        f"(rows of section {a} in the frame: {len(case['sections'][a]['rows'])})")
+            j -= 1
+    return None
+
+
 def judge_doc(res, case, ob, exps, drvs):
     """exps/drvs: per section expectation and driver answer (+ the construction request's answer last)"""
     drvs, cons = drvs[:len(exps)], drvs[len(exps):]
@@ -855,6 +1052,10 @@ def judge_doc(res, case, ob, exps, drvs):
             res.fail(case, f"a {r['kind']} row of section {b} ({r['text0']!r}, boundaries {r['cellx']}) is rendered among "
                            f"the rows of section {a}: it labels columns that are not its own")
             return
+    why = foreign_header(case, ob, exps)
+    if why:
+        res.fail(case, why)
+        return
     for si, (exp, d) in enumerate(zip(exps, drvs)):
         if d.get("viol"):
             v = d["viol"][:4]
@@ -1000,6 +1201,26 @@ CORPUS_SHARED = dict(   # one width-less body and one RTFColumnHeader() listed f
               dict(cols=["S1C0", "S1C1"], rows=[[f"s1r{i}c{j}" for j in range(2)] for i in range(2)],
                    body=dict(), headers=[dict()], keep=[True] * 2, mode="plain", wmode="none", hmode="default",
                    body_of=0, headers_of=0)])
+
+
+def _plain_sec(si, ncol, nrow, widths):
+    return dict(cols=[f"S{si}C{j}" for j in range(ncol)], rows=[[f"s{si}r{i}c{j}" for j in range(ncol)] for i in range(nrow)],
+                body=dict(col_rel_width=widths), headers=[dict(text=[f"S{si}H0x{j}" for j in range(ncol)])],
+                keep=[True] * ncol, mode="plain", wmode="full", hmode="explicit_nowidth")
+
+
+CORPUS_EMPTY = [   # sections without rows between / before / after sections with other widths and column counts
+    dict(level="doc", multi=True, page=dict(col_width=6.0), footnote=None, source=None, header_format=fmt, history=None,
+         sections=[_plain_sec(si, n, r, w) for si, (n, r, w) in enumerate(shape)])
+    for fmt, shape in (
+        ("nested", [(3, 2, [1, 2, 3]), (3, 0, [3, 2, 1]), (3, 2, [1, 1, 4])]),
+        ("nested", [(2, 0, [3, 1]), (4, 2, [2, 1, 1, 1]), (3, 1, [1, 2, 3])]),
+        ("nested", [(3, 1, [1, 2, 3]), (2, 1, [3, 1]), (4, 0, [1, 1, 1, 3])]),
+        ("nested", [(2, 0, [3, 1]), (3, 0, [1, 2, 3]), (4, 1, [2, 1, 1, 1])]),
+        ("nested", [(2, 0, [3, 1]), (3, 0, [1, 2, 3])]),
+        ("flat", [(2, 0, [3, 1]), (4, 12, [2, 1, 1, 1])]),
+    )]
+CORPUS_EMPTY[-1]["page"]["nrow"] = 6
 
 
 # ------------------------------------------------------------------ histories: RE-CONFIGURED configuration objects
@@ -1201,8 +1422,8 @@ def gen_next_step(rng, k, prev, tier):
                 carry=dict(page=pop, footnote=cops["footnote"], source=cops["source"], bodies=bops, headers=hops))
 
 
-def gen_chain(rng, tier):
-    d0 = gen_doc(rng, tier)
+def gen_chain(rng, tier, nsec=None):
+    d0 = gen_doc(rng, tier, nsec=nsec)
     d0["history"] = None
     if rng.random() < 0.3:
         d0["page"] = gen_fresh_page(rng)
@@ -1355,6 +1576,21 @@ def chain_labels(chain, obs):
 def run_chains(res, tier):
     n = 170 if tier == "quick" else 2200
     chains = [CORPUS_HIST_PAGE] + [gen_chain(sub_rng(res.seed, "c08hist", k), tier) for k in range(n)]
+    # histories of multi-section documents in which sections have no rows (in the document before, in the one that
+    # re-uses its objects, or both)
+    for k in range(30 if tier == "quick" else 400):
+        rng = sub_rng(res.seed, "c08histempty", k)
+        ch = gen_chain(rng, tier, nsec=rng.choice([2, 3, 3, 4]))
+        multi_steps = [st for st in ch["steps"] if st["multi"] and not st.get("redoc")]
+        for st in multi_steps:
+            if rng.random() < 0.7 or st is multi_steps[0]:
+                empty_sections(rng, st)
+        # a step that re-encodes the document object of the step before shows that document's frames
+        for a, b in zip(ch["steps"], ch["steps"][1:]):
+            if b.get("redoc"):
+                for sa, sb in zip(a["sections"], b["sections"]):
+                    sb["rows"] = sa["rows"]
+        chains.append(ch)
     obs = common.pool_map(_chain_worker, chains, chunksize=2)
     all_reqs, spans = [], []
     for ch, ob in zip(chains, obs):
@@ -1398,6 +1634,9 @@ def run_chains(res, tier):
         res.count("hist")
         for lab in chain_labels(ch, ob):
             res.count(lab)
+        for st in ch["steps"]:
+            for lab in empty_labels(st):
+                res.count("hist_" + lab)
         nt = None
         if len([x for x in keys if x is not None]) >= 1 and len(keys) >= 2:
             nt = ("h", tuple(keys), tuple(json_key(st.get("carry")) for st in ch["steps"]))
@@ -1473,6 +1712,15 @@ def run_docs(res, tier):
     cases.append(CORPUS_SHARED)
     for k in range(160 if tier == "quick" else 2000):
         cases.append(gen_shared_doc(sub_rng(res.seed, "c08shared", k), tier))
+    # sections without rows: first / middle / last / several / all of 2..5 sections; also among sections that list the
+    # same body / header objects
+    for k in range(140 if tier == "quick" else 1800):
+        cases.append(gen_empty_doc(sub_rng(res.seed, "c08empty", k), tier))
+    for k in range(40 if tier == "quick" else 500):
+        d = gen_shared_doc(sub_rng(res.seed, "c08emptyshared", k), tier)
+        empty_sections(sub_rng(res.seed, "c08emptyshared-which", k), d)
+        cases.append(d)
+    cases += CORPUS_EMPTY       # the smallest documents of the class (fixed)
     obs = common.pool_map(_doc_worker, cases, chunksize=4)
     all_reqs, spans = [], []
     exps_all = []
@@ -1497,7 +1745,7 @@ def run_docs(res, tier):
             res.count(f"sec_removed:{len(s['keep']) - sum(s['keep'])}")
         if c.get("history"):
             res.count("doc_history:" + "+".join(c["history"]["reuse"]))
-        for lab in shared_labels(c):
+        for lab in shared_labels(c) + empty_labels(c):
             res.count(lab)
         if o["status"] == "ok":
             for r in o["rows"]:
